@@ -56,11 +56,14 @@ class Multitask:
         if len(values) == 1:
             return [[deepcopy(values[0]) for _ in range(0, self._m_tasks)] for _ in range(0, self._n_algorithms)]
         if len(values) == self._n_algorithms:
-            return [deepcopy(values[idx] for _ in range(0, self._m_tasks)) for idx in range(0, self._n_algorithms)]
+            return [[deepcopy(values[idx]) for _ in range(0, self._m_tasks)] for idx in range(0, self._n_algorithms)]
         if len(values) == self._m_tasks:
             return [deepcopy(values) for _ in range(0, self._n_algorithms)]
         if len(values) == (self._n_algorithms * self._m_tasks):
-            return values
+            return [
+                [deepcopy(value) for value in values[idx * self._m_tasks:(idx + 1) * self._m_tasks]]
+                for idx in range(0, self._n_algorithms)
+            ]
 
         raise ValueError(f"{name} should be list of {kind} instances with size (1) or (n) or (m) or (n*m), "
                          f"where n is #algorithms, m is #problems.")
